@@ -298,7 +298,22 @@ def ref_bare(c, s=None):
 
 def workdir():
     root = os.path.dirname(os.path.dirname(os.path.dirname(os.path.abspath(__file__))))
-    return os.path.join(root, '.work', str(os.getpid()))
+    return os.path.join(root, '.work', 'c13-%d' % os.getpid())
+
+
+def sweep_workdirs():
+    """Remove xlsx scratch directories left behind by C13 processes that no longer exist (a killed run)."""
+    base = os.path.dirname(workdir())
+    if not os.path.isdir(base):
+        return
+    for fn in os.listdir(base):
+        if fn.startswith('c13-') and fn[4:].isdigit():
+            try:
+                os.kill(int(fn[4:]), 0)
+            except ProcessLookupError:
+                shutil.rmtree(os.path.join(base, fn), ignore_errors=True)
+            except OSError:
+                pass
 
 
 def write_xlsx(spec_file):
@@ -953,6 +968,7 @@ FLOORS['path:compile:indep'] = ('count', {'quick': 50, 'thorough': 500})
 
 def parts(tier, seed):
     q = tier == 'quick'
+    sweep_workdirs()
     return [
         ('enum', 'grid', _grid(tier), 40, not q),
         ('hyp', 'formula', 1440 if q else 40000),
